@@ -41,12 +41,12 @@ static int f_find(const char *n) { for (int i = 0; i < nf; ++i) if (!strcmp(f_na
 void feat(const char *name, double v) { int i = f_find(name); f_val[i] = v; f_is_s[i] = 0; }
 void feat_add(const char *name, double v) { int i = f_find(name); f_val[i] += v; }
 void feat_str(const char *name, const char *v) { int i = f_find(name); f_is_s[i] = 1; snprintf(f_sval[i], 96, "%s", v); }
-static char ctxs[256]; 
+static char ctxs[512]; 
 void hx_ctx_add(const char *w)
 {
     if (strstr(ctxs, w)) return;
     size_t L = strlen(ctxs); snprintf(ctxs + L, sizeof ctxs - L, "%s%s", L ? "," : "", w);
-    char line[96]; int n = snprintf(line, sizeof line, "HXCTX %s\n", w); ssize_t w_ = write(2, line, n); (void)w_;
+    char line[320]; int n = snprintf(line, sizeof line, "HXCTX %.300s\n", w); if (n > (int)sizeof line - 1) n = (int)sizeof line - 1; ssize_t w_ = write(2, line, n); (void)w_;
 }
 static char notes[2048]; static size_t notes_len = 0;
 void note(const char *fmt, ...) { va_list ap; va_start(ap, fmt); if (notes_len < sizeof notes - 2) { notes_len += vsnprintf(notes + notes_len, sizeof notes - notes_len, fmt, ap);
